@@ -170,7 +170,14 @@ def replay_any(v, run_scenario):
                     bad.append('%s rate reported %d, pool/claims = %d' % (key2, got, want))
         return {'status': 'reproduced' if bad else 'mismatch', 'scenario': scn, 'output': out, 'oracle': bad}
     if op == 'zero_payment':
-        return {'status': 'unavailable', 'detail': 'zero-payment replay not implemented'}
+        _, zop, zf = key.split(':')
+        scn = hub_scenario(m, zop)
+        scn['info']['funds'] = [] if zf == 'none' else ([{'denom': 'usei', 'amount': '0'}] if zf == 'zero' else [{'denom': 'uother', 'amount': str(mget(m, 'amount'))}])
+        out = run_scenario(scn)
+        if 'error' in out:
+            return {'status': 'unavailable', 'detail': out['error']}
+        bad = ['%s accepted with %s funds: %s' % (zop, zf, str(out['result'])[:200])] if 'ok' in out.get('result', {}) else []
+        return {'status': 'reproduced' if bad else 'mismatch', 'scenario': scn, 'output': out, 'oracle': bad}
     scn = hub_scenario(m, op)
     out = run_scenario(scn)
     if 'error' in out:
